@@ -28,7 +28,9 @@ TRUSTED = [
     "(c, y_err, x_err) under the same mask; an all-non-finite series is present, empty and shifts nothing; "
     "numpy's bin rule partitions [e_0, e_n] and the counts add up to the in-range values; mesh[i][j] = z at "
     "(y_i, x_j) whatever the stored dimension order; slice (row_i, col_j) sits in panel (i, j) = axes number "
-    "i * ncols + j with its titles; the colour-table index is monotone in the value, 0 at vmin and N-1 at vmax",
+    "i * ncols + j with its titles; the colour-table index is monotone in the value, 0 at vmin and N-1 at vmax; "
+    "scatter c= points are all coloured on the one dataset-wide scale (the pre-repair per-series scaling is "
+    "refuted: C17_scatter_c_scale_refuted_old)",
     "ONLY TESTED (differential test against matplotlib 3.11 / numpy 2.5 / xarray 2026.7, backend Agg, labelled "
     "as such): that Line2D / ErrorbarContainer / PathCollection / Polygon / QuadMesh artists hold exactly the "
     "arrays xyzpy computed, that Axes.hist bins as numpy.histogram does, legend and colour-bar contents, "
@@ -60,10 +62,10 @@ RULE = ("random datasets with 1-4 dimensions (x 1-7, z 1-5 or 11-12, row/col 1-3
         "series or panels, or at least one masked value")
 
 KNOWN_RAISE_WHAT = {
-    "multi-variable-y-with-row-or-col-raises": "lineplot(y=[...], row=/col=) raises 'too many non-singlet dimensions'",
-    "colors-true-without-z-raises": "colors=True without z / c raises AttributeError _color_norm",
-    "colorbar-true-without-colour-scale-raises": "colorbar=True without colour-mapped series raises AttributeError mappable",
-    "legend-true-on-grid-without-labels-raises": "legend=True on a row/col grid of unlabelled lines raises AttributeError",
+    "multi-variable-y-with-row-or-col-raises": "lineplot(y=[...], row=/col=) raises instead of drawing one panel per slice",
+    "colors-true-without-z-raises": "colors=True without z / c raises instead of drawing",
+    "colorbar-true-without-colour-scale-raises": "colorbar=True raises from inside the drawing code",
+    "legend-true-on-grid-without-labels-raises": "legend=True on a row/col grid of unlabelled lines raises",
 }
 
 
@@ -165,7 +167,7 @@ class Plan:
             self.mode = "heat"
         elif self.c is not None:
             self.mode = "cpoints" if self.kind == "scatter" else "cvar"
-        elif o.get("colors") is True:
+        elif o.get("colors") is True or G.colorbar_implies_colors(case):
             zco = raw["coords"].get(self.z) if self.z else None
             self.mode = "zmap-numeric" if (zco is not None and zco["kind"] != "str") else "zmap-even"
         else:
@@ -173,6 +175,7 @@ class Plan:
         # limits of the colour scale: vmin/vmax, else zlims, else the quantity's own range
         self.coo = self.c if self.c is not None else (case["z"] if self.kind == "heatmap" else self.z)
         self.lo = self.hi = None
+        self.degenerate = False
         if self.mode in ("cvar", "cpoints", "zmap-numeric", "heat"):
             zl = o.get("zlims") or [None, None]
             lo = o.get("vmin", zl[0])
@@ -182,6 +185,9 @@ class Plan:
             ids = self.coo_ids()
             self.lo = self.user_lo if self.user_lo is not None else (min(ids) if ids else 0)
             self.hi = self.user_hi if self.user_hi is not None else (max(ids) if ids else 1)
+            # a scale of width zero, or of a quantity without a finite value, defines no normalised value
+            # (matplotlib's colour bar widens it in place): nothing is stated about colours then
+            self.degenerate = self.lo == self.hi or (not ids and (self.user_lo is None or self.user_hi is None))
 
     def coo_ids(self):
         raw = self.raw
@@ -308,8 +314,7 @@ def color_index(plan, key):
     if plan.mode == "cycle":
         tab = cycle_table(plan.case["opts"])
         return tab.index(key) if key in tab else "?color"
-    used_reverse = plan.reverse and plan.kind != "heatmap"     # the heat map ignores colormap_reverse (finding)
-    _, canon, first = cmap_of(plan.cmap_name, used_reverse)
+    _, canon, first = cmap_of(plan.cmap_name, plan.reverse)
     return first.get(key, "?color")
 
 
@@ -393,9 +398,8 @@ def observed_val(plan, obs):
 
 
 def heat_colors_modelled(plan):
-    # an infinite value makes xarray's max() infinite and matplotlib then replaces the scale: not modelled (finding);
     # a scale of width zero (one finite value) has no normalised value and the colour bar widens it
-    return not plan.has_inf(plan.case["z"]) and plan.lo != plan.hi
+    return plan.lo != plan.hi
 
 
 # ------------------------------------------------------------------ the model expression
@@ -435,9 +439,8 @@ def model_expr(plan, obs, canon_names):
     if plan.mode == "cycle":
         cm = f"(CCycle {len(cycle_table(case['opts']))})"
     else:
-        used_reverse = plan.reverse and plan.kind != "heatmap"
         N = 256
-        canon = canon_names[(plan.cmap_name, used_reverse)]
+        canon = canon_names[(plan.cmap_name, plan.reverse)]
         lo = core.zopt(getattr(plan, "user_lo", None))
         hi = core.zopt(getattr(plan, "user_hi", None))
         if plan.mode == "zmap-numeric":
@@ -447,7 +450,7 @@ def model_expr(plan, obs, canon_names):
         elif plan.mode == "cvar":
             cm = f"(CMapC {nid[plan.c]} {lo} {hi})"
         elif plan.mode == "cpoints":
-            cm = f"(CPoints {nid[plan.c]})"
+            cm = f"(CPoints {nid[plan.c]} {lo} {hi})"
         else:
             cm = "(CCycle 1)"
     labels = strlist([l for l in plan.labels if l is not None])
@@ -498,6 +501,13 @@ def canon_preamble():
 
 
 # ------------------------------------------------------------------ the oracle (property statement)
+def refused(case, obs):
+    """colorbar=True while nothing is colour-mapped has no meaning; declining it with a ValueError that says
+    so is not a deviation from the statement (an AttributeError from inside the drawing code is)"""
+    return (G.colorbar_without_scale(case) and obs.get("error", "").startswith("ValueError")
+            and "colorbar" in obs["error"])
+
+
 def oracle(plan, obs):
     """[(key, message)]: where the drawn artists deviate from the statement of C17"""
     bad = []
@@ -505,10 +515,12 @@ def oracle(plan, obs):
 
     def add(key, msg):
         bad.append((key, msg))
-    exp_raise = G.expected_raise(case)
     if "error" in obs:
-        if exp_raise:
-            add(exp_raise, f"{KNOWN_RAISE_WHAT[exp_raise]}: {obs['error']}")
+        if refused(case, obs):
+            return bad          # a colour bar of nothing: declined with a clear ValueError, nothing is drawn
+        cls = G.raise_class(case, obs["error"])
+        if cls:
+            add(cls, f"{KNOWN_RAISE_WHAT[cls]}: {obs['error']}")
         else:
             add("plot-call-raised", f"{obs['error']} at {obs.get('where')}")
         return bad
@@ -565,7 +577,7 @@ def oracle(plan, obs):
                 if plan.mode == "cpoints":
                     if s.get("carr") != e["c"]:
                         add("scatter-c-values", f"{where}: series {k} colour values {s.get('carr')} expected {e['c']}")
-                    elif e["c"]:
+                    elif e["c"] and not plan.degenerate:
                         import matplotlib.colors as mc
                         cm = cmap_of(plan.cmap_name, plan.reverse)[0]
                         nrm = mc.Normalize(plan.lo / P.SCALE, plan.hi / P.SCALE)
@@ -659,7 +671,7 @@ def oracle(plan, obs):
             wantc = [[hexkey(cm(float(nrm(c / P.SCALE)))) if c is not None else None for c in row] for row in wantm]
             gotc = [[hexkey(c) if wantm[a][b] is not None else None for b, c in enumerate(row)]
                     for a, row in enumerate(h["colors"])] if h["cells"] == wantm else wantc
-            if plan.lo == plan.hi and not plan.has_inf(case["z"]):
+            if plan.lo == plan.hi:
                 gotc = wantc        # degenerate scale: nothing to state
             if gotc != wantc:
                 scale_ok = h["norm"] == (plan.lo / P.SCALE, plan.hi / P.SCALE)
@@ -688,9 +700,10 @@ def oracle(plan, obs):
             add("legend-missing", "legend=True but no legend was drawn")
     for cb in obs.get("colorbars", []):
         if plan.mode in ("cvar", "cpoints", "zmap-numeric", "heat") and cb["vmin"] is not None:
-            inf_case = plan.kind == "heatmap" and plan.has_inf(case["z"])
-            if not inf_case and plan.lo != plan.hi and (cb["vmin"] != plan.lo / P.SCALE or cb["vmax"] != plan.hi / P.SCALE):
-                add("colour-bar-scale", f"colour bar spans ({cb['vmin']}, {cb['vmax']}), the quantity spans "
+            if not plan.degenerate and (cb["vmin"] != plan.lo / P.SCALE or cb["vmax"] != plan.hi / P.SCALE):
+                inf_case = plan.kind == "heatmap" and plan.has_inf(case["z"])
+                add("heatmap-infinite-value-breaks-colour-scale" if inf_case else "colour-bar-scale",
+                    f"colour bar spans ({cb['vmin']}, {cb['vmax']}), the quantity spans "
                                         f"({plan.lo / 4}, {plan.hi / 4})")
     return bad
 
@@ -771,7 +784,7 @@ def run_stream(c, cases, canon_names, preamble):
         c.count("grid", "row+col" if (plan.row and plan.col) else "row" if plan.row else "col" if plan.col else "single")
         c.count("series", "multi-variable" if plan.multi else ("z:" + case["ds"]["coords"][plan.z]["kind"]) if plan.z else "one")
         c.count("colour_mode", plan.mode)
-        c.count("outcome", "raised" if "error" in obs else "drawn")
+        c.count("outcome", ("declined" if refused(case, obs) else "raised") if "error" in obs else "drawn")
         c.count("all_non_finite_series", min(all_nan_series(plan), 3))
         for k in ("y_err", "x_err", "c"):
             if case.get(k):
@@ -780,7 +793,9 @@ def run_stream(c, cases, canon_names, preamble):
             c.count("option", k if not isinstance(v, bool) else f"{k}={v}")
         for key, msg in msgs:
             c.violation(key, msg, {"case": case, "replay_hint": "harness.props.c17.replay"})
-        if "error" not in obs and "read_error" not in obs:
+        if plan.mode == "cpoints" and plan.degenerate:
+            c.count("not_compared_with_model", "scatter c= over a degenerate colour scale")
+        elif "error" not in obs and "read_error" not in obs:
             try:
                 pairs.append((model_expr(plan, obs, canon_names), observed_val(plan, obs)))
                 metas.append((case, msgs))
@@ -828,14 +843,19 @@ def run(tier, seed):
     c.cov["differential_test"] = ("the comparison of matplotlib artists with the dataset is a differential TEST of "
                                   "xyzpy + matplotlib + numpy + xarray on the generated cases; only the statements "
                                   "about Model/PlotSeries.v are proved")
-    c.notes.append("model follows the code where the code deviates from the statement: scatter(c=) colours are scaled "
-                   "per series (C17_scatter_c_scale_refuted), the heat map ignores colormap_reverse; both are "
-                   "reported by the oracle under stable keys")
+    c.notes.append("seven defects found by this check were repaired (fix: commits for scatter c= scale, heat-map "
+                   "colormap_reverse, infinite values in the colour scale, colors=True without z, colorbar=True "
+                   "without a colour scale, multi-variable y on a grid, legend=True on an unlabelled grid); model and "
+                   "oracle describe the repaired behaviour, the old per-series scaling of scatter(c=) is kept as "
+                   "point_colors_old (C17_scatter_c_scale_refuted_old); a regression re-appears under the same keys")
+    c.notes.append("colorbar=True while nothing is colour-mapped (no z and no c, or an explicit colour list on a single "
+                   "plot) is declined by the code with a ValueError naming the colour bar: counted as outcome "
+                   "'declined', not a violation; colorbar=True with z and default colours colours the series by z")
     c.notes.append("not covered: colormap_log, xjitter / yjitter (random), non-finite values inside c / y_err / x_err "
                    "or coordinates, method='pcolor', scatter y_err / x_err (silently not drawn by the code), "
                    "padding (raises 'Axis limits cannot be NaN or Inf' as soon as the data holds an infinity)")
     c.assumptions = ["finite data values are distinct multiples of 1/4 of magnitude < 2^12, error values multiples of "
-                     "1/4096 below 1/4 (so value <-> id and y +- e are exact in binary64)",
+                     "1/4096 below 1/4, distinct within a variable (so value <-> id and y +- e are exact in binary64)",
                      "colour tables have N = 256 entries", "heat-map x and y coordinates are increasing"]
     return c.finish(b, PROP_FILE, TRUSTED, RULE)
 
